@@ -120,6 +120,7 @@ type Val struct {
 	Loc *Loc
 	Clo *Closure
 	GoT types.Type
+	Conv bool // pointer converted between distinct named types (type B A): boxing it must not claim the object's own dynamic type
 }
 
 func (v Val) String() string {
